@@ -1073,7 +1073,7 @@ class FGen:
             elif bare.startswith('llvm.ctpop'):
                 E('%s = (%s)__builtin_popcountll((unsigned long long)%s);' % (d, self.G.cty(rty), a[0]))
             elif bare.startswith('llvm.trap') or bare.startswith('llvm.ubsantrap'):
-                E('__aborted = 1; __CPROVER_assume(0);')
+                E('__CPROVER_assert(0, "ABORT: llvm.trap reached"); __CPROVER_assume(0);')
             else:
                 raise NotImplementedError('intrinsic ' + bare)
             if op == 'invoke':
@@ -1084,7 +1084,7 @@ class FGen:
             mm = re.fullmatch(r'\(\(uint32_t\)(\d+)ULL\)', a[idx])
             if mm:
                 if bare == 'vf_check_c':
-                    E('__CPROVER_assert(%s, "VF:%s");' % (a[0], mm.group(1)))
+                    E('__CPROVER_assert(VF_DEP(%s), "VF:%s");' % (a[0], mm.group(1)))
                 else:
                     E('VF_REACH_SITE(%s);' % mm.group(1))
                 self.G.ids.setdefault(self.fn.name, set()).add((bare, int(mm.group(1))))
@@ -1095,7 +1095,7 @@ class FGen:
             if cs:
                 for k in sorted(cs):
                     if bare == 'vf_check_c':
-                        E('if (%s == %d) __CPROVER_assert(%s, "VF:%d");' % (a[idx], k, a[0], k))
+                        E('if (%s == %d) __CPROVER_assert(VF_DEP(%s), "VF:%d");' % (a[idx], k, a[0], k))
                     else:
                         E('if (%s == %d) VF_REACH_SITE(%d);' % (a[idx], k, k))
                     self.G.ids.setdefault(self.fn.name, set()).add((bare, k))
@@ -1131,6 +1131,15 @@ uint64_t __VERIFIER_nondet_u64(void);
 static inline uint64_t __undef_u64(void) { return __VERIFIER_nondet_u64(); }
 #define VF_SEXT64(x,b) ((int64_t)((uint64_t)(x) << (64-(b))) >> (64-(b)))
 unsigned char *vf_alloc_stub(uint64_t size);
+/* trace runs (-DVF_TRACE) make every harness assertion depend on the replay log, so that --slice-formula keeps the
+   logged nondeterministic draws in the formula; vf_log_dep() is always 0 (see prelude.c) */
+unsigned char vf_log_dep(void);
+extern uint64_t __vf_never;
+#ifdef VF_TRACE
+#define VF_DEP(c) ((c) || vf_log_dep())
+#else
+#define VF_DEP(c) (c)
+#endif
 #ifdef VF_REACH
 #define VF_REACH_SITE(id) __CPROVER_assert(0, "REACH:" #id)
 #else
@@ -1367,9 +1376,10 @@ class Translator:
         out += bodies
         en = G.cname('@' + entry)
         out.append('void m_%s(void) {' % en)
+        out.append('  __vf_never = __VERIFIER_nondet_u64(); __CPROVER_assume(__vf_never == 0);')
         out.append('  __vf_init_globals();')
         out.append('  %s();' % en)
-        out.append('  __CPROVER_assert(!__unw, "ESCAPE: panic escaped the harness");')
+        out.append('  __CPROVER_assert(VF_DEP(!__unw), "ESCAPE: panic escaped the harness");')
         out.append('}')
         ids = set()
         for f in reach_f:
